@@ -133,6 +133,94 @@ def nontrivial(beh, recs):
     return changed and wrapped
 
 
+def io_match(exp, obs, step, rec, prev):
+    if obs.get("content") != exp.get("content"):
+        return "content: expected %s, observed %s" % (exp.get("content"), obs.get("content"))
+    if exp["ret"] == "any":
+        return None
+    if obs.get("ret") != exp["ret"]:
+        return "ret: expected %s, observed %s" % (exp["ret"], obs.get("ret"))
+    if obs.get("out") != exp.get("out"):
+        return "out: expected %s, observed %s" % (exp.get("out"), obs.get("out"))
+    return None
+
+
+def io_histories(ck, n, steps):
+    rng = ck.rng
+    behs = []
+    for _ in range(n):
+        beh = [{"a": "init", "arg": {"cap": rng.choice([0, 1, 5, 8, 64, 100])}}]
+        est = 0
+        ctr = 0
+        for _ in range(steps):
+            def fresh(k):
+                nonlocal ctr
+                d = [((ctr + i) % 250) + 1 for i in range(k)]
+                ctr += k
+                return d
+            op = rng.choice(["push", "unshift", "unshift", "pop", "shift", "write", "read", "peek"])
+            if op == "push":
+                k = rng.choice([0, 1, 2, 3, 7, 8, 9, rng.randrange(70)])
+                beh.append({"a": op, "arg": {"data": fresh(k)}}); est += k
+            elif op == "unshift":
+                k = rng.choice([0, 1, 2, 3, 7, 8, 9, rng.randrange(70)])
+                z = rng.choice([0, 0, 1])
+                beh.append({"a": op, "arg": {"data": [0] * k if z else fresh(k), "zero": z}}); est += k
+            elif op in ("pop", "shift"):
+                k = rng.choice([0, 1, 2, rng.randrange(est + 2), est, est + 1])
+                beh.append({"a": op, "arg": {"n": k, "buf": rng.choice([0, 1, 1])}})
+                if k <= est:
+                    est -= k
+            elif op == "write":
+                cnt, part = rng.choice([0, 1, 2, 3, 5]), rng.choice([0, 1, 2, 3, 8])
+                beh.append({"a": op, "arg": {"count": cnt, "part": part, "data": fresh(cnt * part)}}); est += cnt * part
+            elif op == "read":
+                cnt, part = rng.choice([0, 1, 2, 3, 5]), rng.choice([1, 2, 3, 8])
+                beh.append({"a": op, "arg": {"count": cnt, "part": part}}); est -= min(cnt, est // part) * part
+            else:
+                beh.append({"a": op, "arg": {"n": rng.choice([0, 1, 2, rng.randrange(est + 2), est, est + 1])}})
+        behs.append(beh)
+    return behs
+
+
+def run_io(ck, tier, nt):
+    """C++ wrapper io::queue (spec/IoQueue.tla): same three steps."""
+    exe = vlib.build_driver("ioqueue", ["ioqueue.cpp"], libs=("mptcore", "mptio", "mptplot", "mpt++"), cxx=True)
+    res = vlib.tlc("MC_IoQueue", "MC_IoQueue.cfg" if tier == "quick" else "MC_IoQueue_t.cfg")
+    ck.add_tlc(res, "exhaustive MC_IoQueue")
+    gen = vlib.tlc("Gen_IoQueue", "Gen_IoQueue.cfg", workers=4)
+    if gen.error or gen.violation:
+        raise vlib.MachineryError("IoQueue behaviour export failed: %s %s" % (gen.error, gen.violation))
+    behs = vlib.parse_behaviours(gen.out)
+    recs, _ = vlib.run_driver(exe, vlib.to_script(behs))
+    for mm in vlib.compare(behs, recs, io_match):
+        ck.violation("io:" + signature(mm), {"binding": "A(replay) io::queue", "io": True, "behaviour": behs[mm["b"]], "step": mm["i"],
+                                             "why": mm["why"], "record": mm["rec"]})
+    ck.cov["evaluations"] += len(behs)
+    ck.notes["io_replayed_behaviours"] = len(behs)
+    hist = io_histories(ck, 30 if tier == "quick" else 200, 100 if tier == "quick" else 300)
+    recs2, _ = vlib.run_driver(exe, vlib.to_script(hist))
+    events = vlib.merge_trace(hist, recs2)
+    ok, matched, tres = vlib.validate_trace("Trace_IoQueue", events, tag="Trace_IoQueue")
+    ck.cov["transitions"] += tres.generated
+    if not ok:
+        ok2, matched2, _ = vlib.validate_trace("Trace_IoQueue", events, tag="Trace_IoQueue")
+        if not ok2 and matched2 == matched:
+            ev = events[matched] if matched < len(events) else None
+            ck.violation("io:trace:" + (signature({"step": ev, "why": ev["a"] if ev["a"] in ("Crash", "Hang") else "rejected"}) if ev else "short"),
+                         {"binding": "B(trace validation) io::queue", "io": True, "matched_prefix": matched, "rejected_event": ev,
+                          "previous_event": events[matched - 1] if matched else None,
+                          "behaviour": hist[ev["b"]][: ev["i"] + 1] if ev else None})
+    by = vlib.group_records(recs2)
+    for b, beh in enumerate(hist):
+        if nontrivial(beh, by.get(b, [])):
+            nt.add("io" + json.dumps([(s["a"], s.get("arg")) for s in beh], sort_keys=True))
+    ck.cov["evaluations"] += len(hist)
+    ck.notes["io_trace_events"] = len(events)
+    ck.notes["io_trace_events_matched"] = matched
+    return len(hist) if ok else 0
+
+
 def run(tier):
     cfg = CFG[tier]
     ck = vlib.Check(PID, tier)
@@ -180,7 +268,7 @@ def run(tier):
     for b, beh in enumerate(hist):
         if nontrivial(beh, by2.get(b, [])):
             nt.add(json.dumps([(s["a"], s.get("arg")) for s in beh], sort_keys=True))
-    ck.cov["traces_validated_against_impl"] = len(hist) if ok else 0
+    ck.cov["traces_validated_against_impl"] = (len(hist) if ok else 0) + run_io(ck, tier, nt)
     ck.cov["evaluations"] += len(hist)
     ck.notes["trace_events"] = len(events)
     ck.notes["trace_events_matched"] = matched
@@ -206,15 +294,19 @@ def replay(path):
     if not beh:
         print(json.dumps(det, indent=1)[:4000])
         return 2
-    exe = vlib.build_driver("queue", ["queue.c"])
+    io = bool(det.get("io"))
+    if io:
+        exe = vlib.build_driver("ioqueue", ["ioqueue.cpp"], libs=("mptcore", "mptio", "mptplot", "mpt++"), cxx=True)
+    else:
+        exe = vlib.build_driver("queue", ["queue.c"])
     recs, err = vlib.run_driver(exe, vlib.to_script([beh]))
     if all("exp" in s for s in beh):
-        mms = vlib.compare([beh], recs, match)
+        mms = vlib.compare([beh], recs, io_match if io else match)
         for mm in mms:
             print("VIOLATION property=%s replay=%s  (%s: %s)" % (PID, path, signature(mm), mm["why"]))
         return 1 if mms else 0
     events = vlib.merge_trace([beh], recs)
-    ok, matched, _ = vlib.validate_trace("Trace_Queue", events, tag="Trace_Queue_replay")
+    ok, matched, _ = vlib.validate_trace("Trace_IoQueue" if io else "Trace_Queue", events, tag="Trace_Queue_replay")
     if not ok:
         print("VIOLATION property=%s replay=%s  (trace rejected at event %d: %s)" % (PID, path, matched, json.dumps(events[matched])[:400] if matched < len(events) else "-"))
     return 0 if ok else 1
